@@ -286,6 +286,13 @@ impl Cqueue {
             // re-check the queue
             match self.ev_queue.pop() {
                 None => {
+                    // re-check the count as well: the final event of the last select
+                    // coroutine may be consumed already while its decrement came after
+                    // our look at the count and its wake up before our registration
+                    if self.cnt.load(Ordering::Acquire) == 0 {
+                        self.to_wake.take();
+                        continue;
+                    }
                     cur.park(timeout).ok();
                 }
                 Some(mut ev) => {
